@@ -11,7 +11,7 @@
 (* explain this very violation; the raw property is V = {}, the property   *)
 (* modulo known findings is "every v in V has v.kf # {}".                  *)
 (***************************************************************************)
-EXTENDS Acts
+EXTENDS Acts, Ref
 
 Started(pid) == procs[pid].st # "absent"
 Live(pid) == Started(pid) /\ procs[pid].ts # <<>>
@@ -144,6 +144,40 @@ V_C03_CleanEnding ==
               \cup {k \in {"KF_cancel_chain"} : KF_cancel_chain(pid, t)})
             : t \in { x \in TaskKeys(pid) : ~IsDone(TS(pid, x).st) } }
           : pid \in { q \in LivePids : procs[q].ev.kinds = {"complete"} } }
+
+-----------------------------------------------------------------------------
+(* C04 — for runs in which the client only ever completes interrupts: the set *)
+(* of nodes that ran and their final states are those of the reference        *)
+(* interpretation (Ref.tla), whatever the schedule; and the order is right.   *)
+Pure(pid) == Live(pid) /\ procs[pid].pure /\ PlainModel(Models[procs[pid].mi])
+
+V_C04_Outcome ==
+  IF ~Quiescent THEN {}
+  ELSE { V("C04_Outcome", pid, NoKey, {}) :
+           pid \in { q \in Pids :
+                      /\ Pure(q) /\ Terminated(q)
+                      /\ \/ { <<t[1], TS(q, t).st>> : t \in TaskKeys(q) }
+                               # RefOutcome(Models[procs[q].mi], procs[q].inp)
+                         \/ \E t \in TaskKeys(q) : t[2] # 1 } }
+
+(* a step / act starts only after its predecessor in the list is terminal;    *)
+(* a needs-branch runs only after a needed sibling finished; the else branch  *)
+(* runs only if every sibling was skipped                                     *)
+V_C04_Order ==
+  UNION { { V("C04_Order", pid, t, {}) :
+              t \in { x \in TaskKeys(pid) :
+                       \/ LET p == TS(pid, x).prev IN
+                          /\ p \in TaskKeys(pid) /\ ND(pid, p).level = ND(pid, x).level
+                          /\ ~IsDone(TS(pid, p).st)
+                       \/ /\ ND(pid, x).kind = "branch" /\ TS(pid, x).st \in {"running", "completed"}
+                          /\ LET sib == SelectSeq(Siblings(P(pid), x),
+                                                  LAMBDA u : ND(pid, u).kind = "branch") IN
+                             \/ /\ ND(pid, x).needs # {}
+                                /\ ~\E i \in DOMAIN sib : sib[i][1] \in ND(pid, x).needs
+                                                           /\ IsDone(TS(pid, sib[i]).st)
+                             \/ /\ ND(pid, x).needs = {} /\ ND(pid, x).else
+                                /\ \E i \in DOMAIN sib : TS(pid, sib[i]).st # "skipped" } }
+          : pid \in { q \in Pids : Pure(q) } }
 
 -----------------------------------------------------------------------------
 (* C05 *)
@@ -286,6 +320,8 @@ C03_ProcMirrorsRoot  == HoldsX(V_C03_ProcMirrorsRoot)
 C03_Events           == HoldsX(V_C03_Events)
 C03_TerminalEvent    == HoldsX(V_C03_TerminalEvent)
 C03_CleanEnding      == HoldsX(V_C03_CleanEnding)
+C04_Outcome          == HoldsX(V_C04_Outcome)
+C04_Order            == HoldsX(V_C04_Order)
 C05_Admission        == HoldsX(V_C05_Admission)
 C05_TerminalRejected == HoldsX(V_C05_TerminalRejected)
 C05_AtMostOnce       == HoldsX(V_C05_AtMostOnce)
@@ -304,7 +340,8 @@ C08_ParentFirst      == HoldsX(V_C08_ParentFirst)
 (* ... and everything at once, for the observed behaviours *)
 AllV ==
   V_C01_QuiescentOK \cup V_C02_Lifecycle \cup V_C03_ParentDone \cup V_C03_ProcMirrorsRoot
-  \cup V_C03_Events \cup V_C03_TerminalEvent \cup V_C03_CleanEnding \cup V_C05_Admission
+  \cup V_C03_Events \cup V_C03_TerminalEvent \cup V_C03_CleanEnding
+  \cup V_C04_Outcome \cup V_C04_Order \cup V_C05_Admission
   \cup V_C05_TerminalRejected \cup V_C05_AtMostOnce \cup V_C05_NoDupSuccessor
   \cup V_C06_Propagates \cup V_C06_CatchMatches \cup V_C06_CatchStepsOnce
   \cup V_C06_CaughtCompletes \cup V_C08_AtMostOne \cup V_C08_CreatedFirst
